@@ -16,13 +16,17 @@ LEVEL_TEXT = ("Decides, on every path of the type-checked MIR of the current tre
               "a wildcard receives the current segment followed by every remaining one in order (possibly none), and `node` is only ever advanced to the child of the edge just matched; "
               "(R4) insert and lookup normalise the method key identically; (R5) the only version predicate used for selection is ApiEndpointVersions::matches on the caller's version; "
               "(R6) the one insertion-ordered container is appended to only after every existing element was tested with overlaps_with and none overlapped, and (R6E2) overlaps_with is "
-              "exactly 'some version in both' on all order types, so at most one element matches any version and `find` is order-independent. Not decided: correctness of the recursive trie as a theorem over all tables (that the node reached is the node "
+              "exactly 'some version in both' on all order types, so at most one element matches any version and `find` is order-independent; "
+              "(R7) version-constrained endpoints are never served without a version policy - the sticky has_versioned_routes flag is set on every registration of a non-All endpoint, "
+              "never cleared, returned unmodified by its accessor, and the single construction of the server state is refused when the policy is Unversioned and the flag is set "
+              "(with version None every range matches and registration order would decide). Not decided: correctness of the recursive trie as a theorem over all tables (that the node reached is the node "
               "of the template for every nesting) - that needs a verifier or execution.")
 LEVEL_NOTE = ("Trusts rustc MIR construction, the extractor, engine slices/dominators, std BTreeMap::{get,insert,entry}, Vec::push, Iterator::{next,find} and http::{Request,Uri,Method} accessors. "
               "R6E2 re-runs rule C05.E2 of rules/c05.py (exhaustive interpretation of overlaps_with over all weak orders of the range bounds) under this property's id; "
-              "the uniqueness conclusion additionally relies on C05.E1 (matches is exact membership).")
-EXPLANATION = ("Rules over the MIR of server::http_request_handle (coroutine), router::HttpRouter::{lookup_route,insert}, router::find_handler_matching_version and "
-               "router::iter_handlers_from_node extracted from the current tree. Provenance is computed as normalised access paths (single-assignment temporaries followed through copies, "
+              "the uniqueness conclusion additionally relies on C05.E1 (matches is exact membership). That the segments produced by input_path_to_segments are the request's "
+              "path segments decoded exactly once is C03.R1's clause (a double decode there is reported by C03, not here); R3 starts from that iterator.")
+EXPLANATION = ("Rules over the MIR of server::http_request_handle (coroutine), server::HttpServerStarter::new_internal, router::HttpRouter::{lookup_route,insert,has_versioned_routes}, "
+               "router::find_handler_matching_version and router::iter_handlers_from_node extracted from the current tree. Provenance is computed as normalised access paths (single-assignment temporaries followed through copies, "
                "borrows and an explicit list of value-preserving callees, stopping at parameters, call results and re-assigned locals) and backward slices with callee allow-lists; "
                "tables are read from the discriminant switches on HttpRouterEdges; dominance uses the pruned CFG.")
 TRUSTED = ["rustc nightly MIR construction", "mirfacts extractor", "rules/engine.py (dominators, slices) and rules/lib_c01.py (access paths)",
